@@ -1054,9 +1054,10 @@ class Parser:
         """Parse a string."""
         import io
 
-        tok_stream = generate_tokens(io.StringIO(source).readline)
+        # universal newlines, as parse_file (text mode) and CPython read a source: "\r\n" and a lone "\r" end a line like "\n"
+        tok_stream = generate_tokens(io.StringIO(source, newline=None).readline)
         tokenizer = Tokenizer(tok_stream, verbose=verbose)
         # error reports quote whole source lines, like parse_file which re-reads them from the file
-        tokenizer._lines = dict(enumerate(io.StringIO(source).readlines(), 1))
+        tokenizer._lines = dict(enumerate(io.StringIO(source, newline=None).readlines(), 1))
         parser = cls(tokenizer, verbose=verbose, py_version=py_version)
         return parser.parse(mode if mode == "eval" else "file")
